@@ -1,7 +1,7 @@
 #!/bin/bash
 # Runs every claimed check at the given tier; prints one line per check.
 tier="${1:-quick}"
-cd /verif
+cd "$(dirname "$0")/.." || exit 2
 for p in $(python3 -c "import json;print(' '.join(c['property_id'] for c in json.load(open('MANIFEST.json'))['checks']))"); do
   s=$(date +%s.%N)
   out=$(./check "$p" --tier "$tier" 2>&1); rc=$?
